@@ -8,6 +8,7 @@ import (
 	"io/fs"
 	"os"
 	"path/filepath"
+	"strings"
 	"syscall"
 
 	"github.com/oklog/ulid/v2"
@@ -28,6 +29,13 @@ type filesystemPartStore struct {
 
 // Compile-time check to ensure filesystemPartStore implements partstore.PartStore
 var _ partstore.PartStore = (*filesystemPartStore)(nil)
+
+// Names of the intermediate files a transactional PutPart/DeletePart leaves in
+// the root directory until the transaction ends; Start recovers them.
+const (
+	txBackupInfix  = ".txbackup."
+	tempFileSuffix = ".tmp"
+)
 
 func (bs *filesystemPartStore) ensureRootDir() error {
 	err := os.MkdirAll(bs.root, os.ModePerm)
@@ -75,7 +83,57 @@ func (bs *filesystemPartStore) Start(ctx context.Context) error {
 	if err := bs.ValidatedLifecycle.Start(ctx); err != nil {
 		return err
 	}
-	return bs.ensureRootDir()
+	if err := bs.ensureRootDir(); err != nil {
+		return err
+	}
+	return bs.recoverInterruptedTransactions()
+}
+
+// recoverInterruptedTransactions cleans up after a process that died between
+// the pre-commit hooks of a transaction and its end. A backup whose part file
+// is missing belongs to a delete or replacement that may never have been
+// committed, so the part is put back; had the transaction committed, the part
+// is unreferenced and the garbage collector removes it again. A backup next to
+// its part file is the superseded content of a published replacement and is
+// dropped, like temp files that were never published.
+func (bs *filesystemPartStore) recoverInterruptedTransactions() error {
+	dirEntries, err := os.ReadDir(bs.root)
+	if err != nil {
+		return err
+	}
+	for _, dirEntry := range dirEntries {
+		if dirEntry.IsDir() {
+			continue
+		}
+		name := dirEntry.Name()
+		path := filepath.Join(bs.root, name)
+		if strings.HasPrefix(name, ".") && strings.HasSuffix(name, tempFileSuffix) {
+			if _, ok := bs.tryGetPartIdFromFilename(strings.SplitN(name[1:], ".", 2)[0]); ok {
+				if err := os.Remove(path); err != nil && !errors.Is(err, fs.ErrNotExist) {
+					return err
+				}
+			}
+			continue
+		}
+		partName, _, isBackup := strings.Cut(name, txBackupInfix)
+		if !isBackup {
+			continue
+		}
+		if _, ok := bs.tryGetPartIdFromFilename(partName); !ok {
+			continue
+		}
+		partPath := filepath.Join(bs.root, partName)
+		if _, err := os.Lstat(partPath); errors.Is(err, fs.ErrNotExist) {
+			if err := os.Rename(path, partPath); err != nil {
+				return err
+			}
+		} else if err != nil {
+			return err
+		} else if err := os.Remove(path); err != nil {
+			return err
+		}
+	}
+	return nil
 }
 
 func (bs *filesystemPartStore) PutPart(ctx context.Context, tx database.Tx, partId partstore.PartId, reader io.Reader) error {
@@ -84,7 +142,7 @@ func (bs *filesystemPartStore) PutPart(ctx context.Context, tx database.Tx, part
 
 	filename := bs.getFilename(partId)
 	if tx != nil {
-		tempFile, err := os.CreateTemp(bs.root, "."+filepath.Base(filename)+".*.tmp")
+		tempFile, err := os.CreateTemp(bs.root, "."+filepath.Base(filename)+".*"+tempFileSuffix)
 		if err != nil {
 			return err
 		}
@@ -99,7 +157,7 @@ func (bs *filesystemPartStore) PutPart(ctx context.Context, tx database.Tx, part
 			return err
 		}
 
-		backupName := filename + ".txbackup." + ulid.Make().String()
+		backupName := filename + txBackupInfix + ulid.Make().String()
 		backupCreated := false
 		published := false
 		tx.OnPreCommit(func(context.Context) error {
@@ -201,7 +259,7 @@ func (bs *filesystemPartStore) DeletePart(ctx context.Context, tx database.Tx, p
 
 	filename := bs.getFilename(partId)
 	if tx != nil {
-		backupName := filename + ".txbackup." + ulid.Make().String()
+		backupName := filename + txBackupInfix + ulid.Make().String()
 		backupCreated := false
 		tx.OnPreCommit(func(context.Context) error {
 			if err := os.Rename(filename, backupName); err == nil {
